@@ -157,12 +157,26 @@ def flow_sweep(rnd, env, res, n):
             src = (max(1, src[0]), src[1])
         w = UrwidImage(style_classes()[style](Image.new("RGB", src)), rnd.choice(["", "<.^", ">._"]), upscale=rnd.random() < 0.5)
         size = (rnd.randint(1, 16),)
+        # what happened to the (possibly shared) image before rows() is asked
+        pre = rnd.choice(["fresh", "fresh", "box-then-flow", "manual-size", "shared-widget", "flow-other-width"])
+        image = w.image
+        if pre == "box-then-flow":
+            c = w.render((rnd.randint(1, 40), rnd.randint(1, 12)))
+            size = (image.size[0],) if isinstance(image.size, tuple) else size
+        elif pre == "manual-size":
+            image.set_size(size[0], rnd.randint(1, 9))
+        elif pre == "shared-widget":
+            other = UrwidImage(image, "", upscale=not (w._ti_sizing is not None and rnd.random() < 0.5))
+            other.render(size) if rnd.random() < 0.5 else other.render((size[0], rnd.randint(1, 9)))
+        elif pre == "flow-other-width":
+            w.render((rnd.randint(1, 16),))
         announced = w.rows(size)
         rendered = w.render(size).rows()
         res.count("flow widgets: rows() vs render().rows()")
-        res.case(("flow", style, src, cell, size))
+        res.count("flow pre-state " + pre)
+        res.case(("flow", style, src, cell, size, pre))
         if announced != rendered:
-            res.violation("C17:%s:rows-announced" % style, "flow widget %s src=%s cell=%s cols=%d announces %d rows, renders %d" % (style, src, cell, size[0], announced, rendered), dict(kind="flow"))
+            res.violation("C17:%s:rows-announced" % style, "flow widget %s src=%s cell=%s cols=%d (image %s beforehand) announces %d rows, renders %d" % (style, src, cell, size[0], pre, announced, rendered), dict(kind="flow"))
             if res.too_many():
                 return
 
